@@ -1,7 +1,7 @@
 (* Wire-level wrappers of property C12 added after the first round (STAR): decode arguments from sx, run the
    model, encode.  Dispatch.v routes the block of unit numbers 190..199 here; [k] is the offset inside the block. *)
 From Coq Require Import ZArith QArith List Bool.
-From VL Require Import Prelude.Sx Model.Units Model.Cardinal Model.Star.
+From VL Require Import Prelude.Sx Prelude.PyDict Model.GetNBest Model.Quota Model.Units Model.Cardinal Model.Star Model.AllocScore.
 Import ListNotations.
 Open Scope Z_scope.
 
@@ -14,8 +14,38 @@ Definition u_star (a : sx) : sx :=
   | _ => bad_input
   end.
 
+(* allocated score.  args: (mode quota orders votes n prev max)
+   mode 0 = AllocatedScoreSelector (prev / max ignored), 1 = AllocatedScoreDistributor;
+   orders = iteration orders of the Tie frozensets; votes = dict (sorted score ballot) -> weight.
+   result: selector -> list of candidates / ties; distributor -> list of (candidate-or-tie seats) *)
+Definition of_aerr (e : aerr) : sx :=
+  match e with
+  | AE_value => err E_VALUE | AE_index => err E_INDEX | AE_zerodiv => err E_ZERODIV | AE_fuel => err E_FUEL
+  end.
+Definition u_alloc (a : sx) : sx :=
+  match a with
+  | L [A mode; qs; o; v; n; pv; mx] =>
+      match as_quota qs, as_listof (as_listof as_pos) o, as_sprofile v, as_nat n,
+            as_dict as_pos as_Z pv, as_dict as_pos as_Z mx with
+      | Some qs, Some o, Some v, Some n, Some pv, Some mx =>
+          if (mode =? 0)%Z then
+            match alloc_select qs o v n with
+            | inl l => ok (L (map of_res l))
+            | inr e => of_aerr e
+            end
+          else
+            match alloc_distribute qs o v n pv mx with
+            | inl el => ok (L (map (fun rk => L [of_res (fst rk); A (snd rk)]) el))
+            | inr e => of_aerr e
+            end
+      | _, _, _, _, _, _ => bad_input
+      end
+  | _ => bad_input
+  end.
+
 Definition u_c12 (k : Z) (a : sx) : sx :=
   match k with
   | 0 => u_star a
+  | 1 => u_alloc a
   | _ => bad_input
   end.
